@@ -204,13 +204,31 @@ def target_assignments(model, tg, limit, rng):
     return [dict(zip(tg, c)) for c in allc]
 
 
+def eval_cost(model, terms, tg):
+    """number of summand evaluations of the brute-force evaluator"""
+    from adcio import term_contracted
+    tot = 0
+    for t in terms:
+        n = 1
+        for i in term_contracted(t, set(tg)):
+            n *= max(1, len(model.rng(i.space, i.spin)))
+        tot += n * max(1, len(t[1]))
+    return tot
+
+
 def find_difference(e1, e2, tg, rng, special=None, models=4, assigns=12,
-                    sizes=((1, 1), (1, 1)), scale=None):
+                    sizes=((1, 1), (1, 1)), scale=None, max_cost=3e6):
     """search for a model and target assignment on which e1 and e2 differ
-    (e2 may be scaled by `scale`).  Returns a replay dict or None."""
+    (e2 may be scaled by `scale`).  Returns a replay dict or None.  Models
+    on which the brute-force evaluation would exceed max_cost summands are
+    skipped (the evaluator is exponential in the number of contracted
+    indices)."""
     for m in range(models):
         nocc, nvirt = sizes if m % 2 == 0 else ((2, 1), (1, 2))
         model = Model(rng.randrange(1 << 30), nocc, nvirt, special)
+        if (eval_cost(model, e1, tg) + eval_cost(model, e2, tg)) * \
+                min(assigns, 4) > max_cost:
+            continue
         for tgenv in target_assignments(model, list(tg), assigns, rng):
             try:
                 v1 = model.eval_expr(e1, tgenv)
